@@ -234,7 +234,11 @@ def rname(rng, long_ok=True):
     r = rng.random()
     if long_ok and r < 0.08:
         n = rng.choice([4093, 4094, 4095, 4096, 4097, 5000])
-        return (b"L" + bytes(rng.choice(b"ab/") for _ in range(n)))[:n].replace(b"//", b"/a").rstrip(b"/").ljust(n, b"z")
+        # few directory levels: every level costs a cached-tree entry once git runs write-tree
+        body = bytearray(rng.choice(b"ab") for _ in range(n))
+        for k in range(rng.randrange(0, 4)):
+            body[rng.randrange(1, n - 1)] = 0x2f
+        return (b"L" + bytes(body))[:n].replace(b"//", b"/a").rstrip(b"/").ljust(n, b"z")
     depth = rng.randrange(1, 4)
     comps = []
     for _ in range(depth):
